@@ -267,3 +267,52 @@ const smtPrelude = `(set-option :produce-models true)
 (declare-fun shlv (Int Int) Int)
 (declare-fun shrv (Int Int) Int)
 `
+
+// splitConj splits a formula into conjuncts through and / => / forall / (! … :pattern) so that each piece is a separate, smaller obligation.
+func splitConj(t string, budget int) []string {
+	if budget <= 1 || !strings.HasPrefix(t, "(") {
+		return []string{t}
+	}
+	p := splitTop(t)
+	switch p[0] {
+	case "and":
+		var out []string
+		for _, x := range p[1:] {
+			out = append(out, splitConj(x, budget/(len(p)-1)+1)...)
+		}
+		return out
+	case "=>":
+		if len(p) == 3 {
+			var out []string
+			for _, x := range splitConj(p[2], budget) {
+				out = append(out, app("=>", p[1], x))
+			}
+			return out
+		}
+	case "forall":
+		if len(p) == 3 {
+			body := p[2]
+			pat := ""
+			if strings.HasPrefix(body, "(! ") {
+				bp := splitTop(body)
+				// (! body :pattern (...) ...)
+				body = bp[1]
+				pat = " " + strings.Join(bp[2:], " ")
+			}
+			pieces := splitConj(body, budget)
+			if len(pieces) == 1 {
+				return []string{t}
+			}
+			var out []string
+			for _, x := range pieces {
+				if pat != "" {
+					out = append(out, fmt.Sprintf("(forall %s (! %s%s))", p[1], x, pat))
+				} else {
+					out = append(out, fmt.Sprintf("(forall %s %s)", p[1], x))
+				}
+			}
+			return out
+		}
+	}
+	return []string{t}
+}
